@@ -43,6 +43,10 @@ def run(ctx) -> None:
 
     ctx.rule("C02.genes", "finite evaluation: update_genes_from_gpr links a reaction to the model's own gene objects for exactly the identifiers of its rule (shared with C02)", floor=1)
     ctx.guard(genesform.check_update_genes, ctx, "C02.genes")
+    from . import replayform
+
+    ctx.rule("C07.replay", "bounded evaluation: knock-out scripts on a stand-in model by the real methods (Gene.knock_out, Reaction.functional, knock_out_model_genes)", floor=1)
+    ctx.guard(replayform.check_knockouts, ctx, "C07.replay")
 
 
 # ------------------------------------------------------------------------------------------ eval
